@@ -42,6 +42,8 @@ type Net struct {
 	// per-run fault rates (percent), zeroed in the quiet period
 	dropPct, dupPct, longDelayPct, respDropPct int
 	minLat, jitter                             time.Duration
+	// failNext[src][dst]: that many of the next calls from src to dst fail before anything is sent (placed fault)
+	failNext [][]int
 }
 
 func newNet(w *World, n int) *Net {
@@ -49,7 +51,11 @@ func newNet(w *World, n int) *Net {
 	for i := range b {
 		b[i] = make([]bool, n)
 	}
-	return &Net{w: w, blocked: b, minLat: w.cfg.MinLatency, jitter: w.cfg.Jitter,
+	fn := make([][]int, n)
+	for i := range fn {
+		fn[i] = make([]int, n)
+	}
+	return &Net{w: w, blocked: b, failNext: fn, minLat: w.cfg.MinLatency, jitter: w.cfg.Jitter,
 		dropPct: w.cfg.DropPct, dupPct: w.cfg.DupPct, longDelayPct: w.cfg.LongDelayPct, respDropPct: w.cfg.RespDropPct}
 }
 
@@ -253,6 +259,12 @@ func (t *SimTransport) callOpt(kind string, target raft.ServerAddress, req any, 
 	n.msgs = append(n.msgs, m)
 	w.stats.Msgs[kind]++
 	w.or.onSend(t.inc, m)
+	if n.failNext[t.inc.node.idx][dst.idx] > 0 && !w.quiet {
+		n.failNext[t.inc.node.idx][dst.idx]--
+		w.stats.fault("transport_call_error_placed")
+		m.Fate = "call-error"
+		return nil, errUnreachable
+	}
 	// buggify: the call fails before anything is sent
 	if w.cfg.BugTransportErrPct > 0 && !w.quiet && w.ch.Chance(simrt.SNet, w.cfg.BugTransportErrPct, 1000) {
 		w.stats.fault("transport_call_error")
